@@ -271,7 +271,8 @@ def _primitives(rng, idx):
     L0 = prims.pair_L(p1, p2)
     centres = [p1.orc.center(), p2.orc.center()]
     G = _pick_motion(rng, centres)
-    fr = [x for p in (p1, p2) for x in [getattr(p.orc, "scale", lambda: 1.0)()] if x > 0] or [1.0]
+    # every feature size (each radius, edge, side) of the scaled scene stays inside the primitive domain [0.2, 1e2]
+    fr = [x for p in (p1, p2) for x in prims.feature_sizes(p) if x > 0] or [1.0]
     s = _pick_scale(rng, [max(0.2, min(fr))] + [max(fr)], centres)
     s = float(min(max(s, 0.2 / max(0.2, min(fr))), 100.0 / max(fr))) if max(fr) > 0 else 1.0
     tol_k = 5e-3 if name == "line_to_circle" else 1e-6
